@@ -51,6 +51,11 @@ class VModel:
         self.old = {}
 
 
+def _live(old, vm):
+    """__old__ is a shallow copy: the inner list of u is shared with the live context, so its length is the current one"""
+    return None if old is None else (old[0], old[1], vm.w, old[3])
+
+
 def expected(sp, r, vm):
     """(body, tail) of the log the returned step implies; vm is advanced"""
     body = []
@@ -64,25 +69,25 @@ def expected(sp, r, vm):
                     vm.v += 2
                     vm.w += 1
                 for j in s.post:
-                    body.append(('cond', j, vm.v, vm.old.get(sname), None))
+                    body.append(('cond', j, vm.v, _live(vm.old.get(sname), vm), None))
             if m.transition is not None:
                 t = sp.trans[tid(m.transition)]
-                oldt = (vm.v, vm.w)
+                oldt = (vm.v, vm.w, 'live', vm.w)
                 for j in t.pre:
                     body.append(('cond', j, vm.v, None, evm))
                 for j in t.inv:
-                    body.append(('cond', j, vm.v, oldt, evm))
+                    body.append(('cond', j, vm.v, _live(oldt, vm), evm))
                 body.append(('act', t.i, evm))
                 if t.bump:
                     vm.v += 3
                     vm.w += 1
                 for j in t.post:
-                    body.append(('cond', j, vm.v, oldt, evm))
+                    body.append(('cond', j, vm.v, _live(oldt, vm), evm))
                 for j in t.inv:
-                    body.append(('cond', j, vm.v, oldt, evm))
+                    body.append(('cond', j, vm.v, _live(oldt, vm), evm))
             for sname in m.entered_states:
                 s = sp.states[sname]
-                vm.old[sname] = (vm.v, vm.w)
+                vm.old[sname] = (vm.v, vm.w, 'live', vm.w)
                 for j in s.pre:
                     body.append(('cond', j, vm.v, None, None))
                 body.append(('entry', sname))
@@ -93,7 +98,7 @@ def expected(sp, r, vm):
     for sname in r.post:
         s = sp.states[sname]
         if s.inv:
-            tail[sname] = [('cond', j, vm.v, vm.old.get(sname), None) for j in s.inv]
+            tail[sname] = [('cond', j, vm.v, _live(vm.old.get(sname), vm), None) for j in s.inv]
     return body, tail
 
 
@@ -110,7 +115,7 @@ def run(ch, tier):
     shadow = None
     if ch.s('cfg').flag(1, 3):
         from sim.chart import build_api
-        shadow = Sim(sp, ignore_contract=False, statechart=build_api(sp, preamble='v = 500\nw = [1, 2, 3]'))
+        shadow = Sim(sp, ignore_contract=False, statechart=build_api(sp, preamble='v = 500\nw = [1, 2, 3]\nu = [[7]]\nbox = P.newbox(9)'))
         res.stats['runs_with_a_second_live_interpreter_of_the_same_chart'] += 1
     vm = VModel()
     A = []           # (step index, log) per step
